@@ -14,7 +14,7 @@ CONC_SIG = "concurrent-new-address-insert-race"
 
 class Prop:
     pid = "C19"
-    vo_check = ["theories/Ratelimit/Check.vo"]
+    vo_check = ["theories/Ratelimit/Check.vo", "theories/Gen/RlAst.vo", "theories/Ratelimit/AstGrid.vo"]
     vo_props = ["theories/Props/C19.vo"]
     k_names = ["decisions(ratelimiter.Allow/cleanup under VerifSetClock == Ratelimit.Model.step, with passes, without passes, address alone)",
                "concurrent(k callers of Allow for one new address held at the clock call; observed admissions judged by Spec.envelope_chk)",
@@ -39,11 +39,43 @@ class Prop:
                    "the all-schedules theorem is for Allow with the insertion re-checked under the write lock and without a collection "
                    "pass between a caller's lookup and its charge; for the code as found the envelope is refuted (F2)",
                    "device/receive.go consults Allow only under load after the MAC2 gate (covered by the C03/C13 co-simulation, not here)"]
-    trusted_extra = ["Base/Ints.v: primitive Uint63 literals carry addresses and times in generated case files only",
+    trusted_extra = ["translator harness/cmd/rlast (go/parser over ratelimiter/ratelimiter.go: the body of Allow and the per-entry body of "
+                     "cleanup as terms of the deep-embedded language of Ratelimit/Ast.v; lock operations are emitted and skipped by the sequential "
+                     "interpreter; the interpreter shares wrap64 / elapsed with the model; unrecognised constructs become Unknown nodes; notes/C19-ast.md)",
+                     "Base/Ints.v: primitive Uint63 literals carry addresses and times in generated case files only",
                      "the concurrent scenario relies on the limiter calling its clock between lookup and insert (blocking clock = yield point)"]
+
+    def model_search(self, broken):
+        """Ratelimit/AstProofs.v no longer checks: compare the interpreted source with the model on the grid of
+        Ratelimit/AstGrid.v (entry cells x clock values; cleanup condition)."""
+        import re
+        d = os.path.join(self.dir, "modelsearch")
+        os.makedirs(d, exist_ok=True)
+        open(os.path.join(d, "Search.v"), "w").write(
+            "From Coq Require Import String.\n"
+            "From WG Require Import Base.Prelude Gen.Constants Ratelimit.Model Ratelimit.Ast Gen.RlAst Ratelimit.AstGrid.\n"
+            "Definition w := Eval vm_compute in (firstn 2 diffs, firstn 2 cdiffs).\nPrint w.\n")
+        rc, o = vlib.sh(["timeout", "600", "coqc", "-Q", os.path.join(vlib.COQ, "theories"), "WG", "Search.v"], cwd=d)
+        if rc != 0:
+            return None
+        flat = " ".join(o.split())
+        m = re.search(r"w = (.*?) : ", flat)
+        if not m or m.group(1).replace(" ", "") in ("([],[])", "(nil,nil)"):
+            return None
+        # an interpreter that stopped (None in the third component) is not a behaviour of the code
+        if "Some" not in m.group(1).split("],")[0] and "[]" in m.group(1).split("],")[-1]:
+            return None
+        return {"signature": "interpreted-source-differs-from-the-model-of-the-token-bucket",
+                "differences": m.group(1)[:1500],
+                "how_to_read": "Allow: (entry before as Some (lastTime, tokens) or None, clock, interpreted source: Some (entry after, decision), "
+                               "model: (lastTime, tokens, decision)); cleanup: (lastTime, clock) on which the delete condition differs",
+                "replay": "coqc -Q coq/theories WG out/C19/modelsearch/Search.v ; on the implementation: harness/cmd/c19 -replay with one "
+                          "address, VerifSetClock at the listed times"}
 
     def __init__(self):
         self.dir = os.path.join(vlib.OUT, "C19")
+        # translator G2: the bodies of Allow / cleanup, regenerated from the source on every run
+        self.translators = [lambda: vlib.gen_file("rlast", os.path.join("Gen", "RlAst.v"), ["-repo", vlib.REPO])]
         self.conc_file = None
         self.conc_index = None
         self.dev_file = None
